@@ -37,7 +37,7 @@ static inline size_t call_varargs(char *buf, size_t len, const char *addr, const
 static inline size_t call_valist(char *buf, size_t len, const char *addr, const char *types, const CArg *c, int n)
 {
     static_assert(sizeof(va_list) == 24, "unexpected va_list layout");
-    uint64_t slots[64];
+    uint64_t slots[512];
     for(int k = 0; k < n; ++k) {
         slots[k] = 0;
         switch(c[k].k) {
